@@ -276,6 +276,11 @@ def stores_through(prog, adt_suffix, field, crate='lorawan_device'):
     return out
 
 
+def absint_new(prog):
+    from .. import absint_interp
+    return absint_interp.new_analyzer(prog, max_depth=4)
+
+
 def iterator_driven(bf, blocks):
     """the loop calls Iterator::next (or a Peekable/adapter next) and leaves the loop on its None edge"""
     for bb in blocks:
@@ -414,6 +419,59 @@ def flow_rules(c, res, an):
             # same site as the removal above when it is in the same block: reported once under the store's key
     if n_rm < 2:
         raise CheckError('floor: channel removal sites %d < 2' % n_rm)
+    # ---- CONST-TABLE rules behind the named invariants of the classification table
+    if an is None:
+        return {}
+    from .. import tables
+    regs = tables.regions(prog)
+    if len(regs) != 6:
+        raise CheckError('floor: ChannelRegion impls %d != 6' % len(regs))
+    bdef = [b for p_, bl in prog.by_short.items() if p_.endswith('region::RegionHandler::get_default_datarate') for b in bl]
+    overrides = [im['self_ty'] for im in prog.impls if im.get('trait') == D + 'region::RegionHandler' and any(it['name'] == 'get_default_datarate' for it in im['items'])]
+    dflt = None
+    if len(bdef) == 1 and not overrides:
+        a_, fr_, out_, rv_ = tables.run_fn(prog, bdef[0])
+        if rv_ is not None and rv_[0] == 'adt' and rv_[2] is not None and len(rv_[2]) == 1:
+            dflt = next(iter(rv_[2]))
+    if dflt is None:
+        raise CheckError('anchor: RegionHandler::get_default_datarate is not one default method returning a constant (overrides: %s)' % overrides)
+    win = rules.variants_of(prog, 'mac::Window')
+    for r in regs:
+        sr = r.split('::')[-1].split('<')[0]
+        dr = tables.datarates(prog, r)
+        res.require(isinstance(dr[dflt], dict), 'C04:const:%s:default-datarate' % sr, 'the default data rate DR%d is not defined in the %s table' % (dflt, sr), r,
+                    'CONST-TABLE(default data rate defined)', instance='%s: default data rate DR%d is defined (invariant data_rate-defined holds initially)' % (sr, dflt))
+        pw = tables.option_u8_table(prog, tables._method_body(prog, r, tables.CR, 'tx_power_adjust'), [0])
+        res.require(isinstance(pw[0], int), 'C04:const:%s:tx-power-0' % sr, 'tx_power_adjust(0) is not Some in %s' % sr, r, 'CONST-TABLE(tx power index 0 defined)',
+                    instance='%s: tx_power_adjust(0) = %s dBm (create_tx_config unwrap)' % (sr, pw[0]))
+        # RX2 fallback: get_rx_datarate(tx_dr, offset, Window::_2) is a defined rate for every defined tx_dr and valid offset
+        mo = tables.assoc_const(prog, r, tables.CR, 'MAX_RX1_DR_OFFSET')
+        trait = D + ('region::fixed_channel_plans::FixedChannelRegion' if 'fixed_channel_plans' in r else 'region::dynamic_channel_plans::DynamicChannelRegion')
+        body = tables._method_body(prog, r, trait, 'get_rx_datarate')
+        if body is None or mo is None:
+            raise CheckError('anchor: get_rx_datarate / MAX_RX1_DR_OFFSET of %s' % sr)
+        bad = []
+        n_eval = 0
+        for i, e in enumerate(dr):
+            if not isinstance(e, dict):
+                continue
+            for off_ in range(mo + 1):
+                wv = tables.enum_value(prog, D + 'mac::Window', '_2')
+                an_ = absint_new(prog)
+                # &Window argument: place the enum in a local of the entry frame and pass a reference to it
+                def setup(an2, fr2, st2, i=i, off_=off_, wv=wv):
+                    st2.env[(fr2.id, 1)] = tables.enum_value(prog, 'lorawan::types::DR', prog.adts['lorawan::types::DR']['variants'][i]['name'])
+                    from ..absint import Lin
+                    st2.env[(fr2.id, 2)] = ('int', Lin.const(off_))
+                    st2.mem[('obj', 'window_arg*')] = wv
+                    st2.env[(fr2.id, 3)] = ('ref', ('O', 'window_arg*', ()))
+                fr2, out2 = an_.analyze_entry(body, setup=setup)
+                n_eval += 1
+                rv2 = out2.env.get((fr2.id, 0)) if out2 is not None else None
+                if rv2 is None or rv2[0] != 'adt' or rv2[2] is None or not all(j < len(dr) and isinstance(dr[j], dict) for j in rv2[2]):
+                    bad.append((i, off_, sorted(rv2[2]) if rv2 is not None and rv2[0] == 'adt' and rv2[2] is not None else None))
+        res.require(not bad and n_eval > 0, 'C04:const:%s:rx2-default-defined' % sr, 'regional RX2 data rate undefined for (tx dr, offset) %s' % bad[:4], r,
+                    'CONST-TABLE(RX2 default data rate defined)', instance='%s: get_rx_datarate(tx_dr, offset<=%d, Window::_2) is a defined rate (%d cases; build_rf_config unwrap)' % (sr, mo, n_eval))
     # ---- LOOP inventory
     found = {}
     n_loops = 0
